@@ -32,7 +32,8 @@ def concretise(st):
     cls = {1: dict(name=CLASSES[1], super="Ljava/lang/Object;", ifaces=[], flags=1, src="A.java" if ghosts else None,
                    sfields=[], ifields=[], dmethods=[], vmethods=[])}
     if withB:
-        cls[2] = dict(name=CLASSES[2], super=CLASSES[1], ifaces=["Ljava/lang/Runnable;", "Lx/T;"], flags=0x401, src="B.java",
+        # (interfaces are reported in the order the class declares them, which need not be alphabetical)
+        cls[2] = dict(name=CLASSES[2], super=CLASSES[1], ifaces=["Lx/T;", "Ljava/lang/Runnable;", "Lm/I;"] if ghosts else ["Ljava/lang/Runnable;", "Lx/T;"], flags=0x401, src="B.java",
                       sfields=[(NAMES[1], TYPES[1], 9)], ifields=[], dmethods=[],
                       vmethods=[dict(name=NAMES[1], ret=PROTOS[1][0], params=list(PROTOS[1][1]), flags=1, code=code_for(1, 1, False))])
     for f in st["fields"]:
@@ -255,8 +256,8 @@ def random_model_record(dex, rnd, max_classes):
     classes, F, M = [], [], []
     protos = set()
     for cn in cnames:
-        c = dict(name=cn, super="Ljava/lang/Object;", ifaces=[], flags=rnd.choice([1, 0x11, 0x401, 0x601]), src=rnd.choice([None, "S.java"]),
-                 sfields=[], ifields=[], dmethods=[], vmethods=[])
+        c = dict(name=cn, super="Ljava/lang/Object;", ifaces=rnd.sample(["Lz/I;", "La/I;", "Lm/I;", "Ljava/lang/Runnable;"], rnd.choice([0, 0, 1, 2, 3])),
+                 flags=rnd.choice([1, 0x11, 0x401, 0x601]), src=rnd.choice([None, "S.java"]), sfields=[], ifields=[], dmethods=[], vmethods=[])
         seen = set()
         for _ in range(rnd.randrange(0, 6)):
             n, t, st = rnd.choice(POOL_N[:8]), rnd.choice(POOL_T), rnd.random() < 0.5
